@@ -332,6 +332,23 @@ def c07_left_right(rng, tier):
             out.append(_fail("left/right half models differ in %s" % q, o1[q], o0[q], **case))
     if np.max(np.abs(o0["CM"] - o1["CM"])) > 1e-9 * max(np.max(np.abs(o0["CM"])), 1e-9):
         out.append(_fail("left/right half models differ in CM", o1["CM"], o0["CM"], **case))
+    # two symmetric surfaces described on different sides (wing as left half, tail as right half, ...): same aircraft.
+    # (Not with an off-plane root: the bridging ghost panel of known finding F5 makes the wing's own flow field asymmetric,
+    # so a tail modelled on the left and one modelled on the right legitimately see different inductions.)
+    if not ground and not off:
+        nx2, ny2 = _sizes(rng, tier)
+        tl = _clean_half(rng, nx2, ny2) * 0.5 + np.array([6.0, 0.0, 0.8]); tl[:, -1, 1] = 0.0
+        tr = _mirror_mesh(tl)
+        base = [_surf("w", left, True, rng), _surf("t", tl, True, rng)]
+        ref = pipelines.aero_outputs(pipelines.run_aero_point(base, flow), base)
+        for wm, tm, label in ((left, tr, "wing left / tail right"), (right, tl, "wing right / tail left")):
+            mixed = [dict(base[0], mesh=wm), dict(base[1], mesh=tm)]
+            om_ = pipelines.aero_outputs(pipelines.run_aero_point(mixed, flow), mixed)
+            for q in ("CL", "CD"):
+                if abs(om_[q] - ref[q]) > 1e-9 * max(abs(ref[q]), 1e-9):
+                    out.append(_fail("a model whose symmetric surfaces are described on different sides differs in %s from the all-left model" % q,
+                                     om_[q], ref[q], sides=label, **case))
+                    break
     return out
 
 
